@@ -1,0 +1,150 @@
+//! Verification hooks, compiled only with `--cfg folo_verif` (never in a normal build).
+//!
+//! With the guard on, the state byte and the mutex of the thread-safe events are the
+//! [`AtomicU8`] and [`Mutex`] of this module instead of the ones in `std`. Both report every
+//! operation through the process-global hook table of [`awaiter_set::verif`] (re-exported
+//! here), so a verification harness installs one table and sees the state byte, the awaiter
+//! lifecycle bytes and the mutex in one totally ordered stream. While no table is installed
+//! the shims are plain `std` behaviour.
+//!
+//! The shim [`Mutex`] never blocks inside the operating system while a table is installed:
+//! `lock()` is a `try_lock` loop that calls the `blocked` function between attempts, so a
+//! deterministic scheduler sees the contention (and a self-deadlock is a state it can
+//! detect instead of a hang).
+
+use std::fmt;
+use std::ops::{Deref, DerefMut};
+use std::panic::Location;
+use std::sync::atomic::Ordering;
+use std::sync::{LockResult, PoisonError, TryLockError};
+
+pub use awaiter_set::verif::{AtomicU8, Hooks, Op, OpKind, hooks, install};
+
+/// Drop-in replacement for [`std::sync::Mutex`] whose acquisition and release are reported
+/// through the hook table and whose contention is cooperative.
+pub struct Mutex<T> {
+    inner: std::sync::Mutex<T>,
+}
+
+impl<T> Mutex<T> {
+    /// Creates a new mutex in the unlocked state.
+    #[inline]
+    #[must_use]
+    pub const fn new(value: T) -> Self {
+        Self {
+            inner: std::sync::Mutex::new(value),
+        }
+    }
+
+    #[inline]
+    fn address(&self) -> usize {
+        std::ptr::from_ref(&self.inner).addr()
+    }
+
+    /// See [`std::sync::Mutex::lock`].
+    ///
+    /// # Errors
+    ///
+    /// As for `std`: an error carrying the guard if the mutex is poisoned.
+    #[inline]
+    #[track_caller]
+    pub fn lock(&self) -> LockResult<MutexGuard<'_, T>> {
+        let site = Location::caller();
+        let Some(hooks) = hooks() else {
+            return match self.inner.lock() {
+                Ok(guard) => Ok(MutexGuard::new(self, guard, site)),
+                Err(poisoned) => Err(PoisonError::new(MutexGuard::new(
+                    self,
+                    poisoned.into_inner(),
+                    site,
+                ))),
+            };
+        };
+        let op = Op::new(self.address(), OpKind::Lock, Ordering::Acquire, site);
+        (hooks.before)(&op);
+        loop {
+            match self.inner.try_lock() {
+                Ok(guard) => {
+                    (hooks.after)(&op);
+                    return Ok(MutexGuard::new(self, guard, site));
+                }
+                Err(TryLockError::Poisoned(poisoned)) => {
+                    (hooks.after)(&op);
+                    return Err(PoisonError::new(MutexGuard::new(
+                        self,
+                        poisoned.into_inner(),
+                        site,
+                    )));
+                }
+                Err(TryLockError::WouldBlock) => {
+                    (hooks.blocked)(&op);
+                    std::thread::yield_now();
+                }
+            }
+        }
+    }
+}
+
+impl<T> fmt::Debug for Mutex<T> {
+    fn fmt(&self, f: &mut fmt::Formatter<'_>) -> fmt::Result {
+        f.debug_struct("Mutex").finish_non_exhaustive()
+    }
+}
+
+/// Guard returned by [`Mutex::lock`]; reports the release when dropped.
+pub struct MutexGuard<'a, T> {
+    // `Option` only so that `drop` can release the `std` guard before reporting.
+    guard: Option<std::sync::MutexGuard<'a, T>>,
+    address: usize,
+    site: &'static Location<'static>,
+}
+
+impl<'a, T> MutexGuard<'a, T> {
+    fn new(
+        mutex: &Mutex<T>,
+        guard: std::sync::MutexGuard<'a, T>,
+        site: &'static Location<'static>,
+    ) -> Self {
+        Self {
+            guard: Some(guard),
+            address: mutex.address(),
+            site,
+        }
+    }
+}
+
+impl<T> Deref for MutexGuard<'_, T> {
+    type Target = T;
+
+    #[inline]
+    fn deref(&self) -> &T {
+        self.guard
+            .as_deref()
+            .expect("the guard is only taken out in drop")
+    }
+}
+
+impl<T> DerefMut for MutexGuard<'_, T> {
+    #[inline]
+    fn deref_mut(&mut self) -> &mut T {
+        self.guard
+            .as_deref_mut()
+            .expect("the guard is only taken out in drop")
+    }
+}
+
+impl<T> Drop for MutexGuard<'_, T> {
+    fn drop(&mut self) {
+        drop(self.guard.take());
+        if let Some(hooks) = hooks() {
+            let op = Op::new(self.address, OpKind::Unlock, Ordering::Release, self.site);
+            (hooks.after)(&op);
+        }
+    }
+}
+
+impl<T> fmt::Debug for MutexGuard<'_, T> {
+    fn fmt(&self, f: &mut fmt::Formatter<'_>) -> fmt::Result {
+        f.debug_struct("MutexGuard").finish_non_exhaustive()
+    }
+}
